@@ -22,7 +22,7 @@ theorem wState_run : runLabels true St.init wLabels = some wState := by
   simp [wState, wOpt]
 
 def quiet : Frame → Prop
-  | .idle | .addLoaded _ _ _ _ => True
+  | .idle | .addLoaded _ _ _ _ | .cbRun _ _ _ => True
   | _ => False
 
 /-- the stuck configuration; inductive under every step of every thread -/
